@@ -23,6 +23,8 @@ pub enum Case {
     Time { digits: String },
     /// sign + four characters in the offset slot of 13C / 13D
     Offset { text: String },
+    /// a generated valid message of type `mt` whose field `tag` (occurrence `occ`) carries `digits` in its date slot
+    MessageDate { mt: String, tag: String, occ: usize, digits: String, text: String },
 }
 
 /// (field type, prefix, suffix): content = prefix + digits + suffix
@@ -72,6 +74,12 @@ fn valid_ymd(d: &str, century: u32) -> Option<bool> {
     Some(mm >= 1 && mm <= 12 && dd >= 1 && dd <= days_in_month(century + yy, mm))
 }
 
+/// for the message-level stage (dates chosen so that validity does not depend on the century)
+fn is_calendar_date(d: &str) -> bool {
+    let century = if d.get(0..2).and_then(|y| y.parse::<u32>().ok()).unwrap_or(0) >= 50 { 1900 } else { 2000 };
+    valid_ymd(d, century) == Some(true)
+}
+
 fn class_of_date(d: &str) -> &'static str {
     if !d.bytes().all(|b| b.is_ascii_digit()) {
         return "non-digit";
@@ -116,6 +124,34 @@ fn v(l: &mut Local, ty: &str, clause: &str, class: &str, what: String, case: &Ca
 
 pub fn judge(case: &Case, l: &mut Local) {
     match case {
+        Case::MessageDate { mt, tag, occ, digits, text } => {
+            let ops = crate::registry::msg(mt).unwrap();
+            let stratum = format!("message-date:MT{mt}");
+            let valid = is_calendar_date(digits);
+            match guard(|| (ops.parse_b4)(text)) {
+                Err(_) => l.eval(&stratum, "panic(C07)", false, 0),
+                Ok(Ok(_)) => {
+                    l.eval(&stratum, "accepted", true, hash_str(text));
+                    if !valid {
+                        l.violation(
+                            format!("C11|MT{mt}:{tag}|message-accepts-non-date|{}", class_of_date(digits)),
+                            format!("MT{mt}: a message whose field {tag} (occurrence {occ}) carries the non-date {digits} is accepted"),
+                            || serde_json::to_value(case).unwrap(),
+                        );
+                    }
+                }
+                Ok(Err(e)) => {
+                    l.eval(&stratum, "rejected", true, hash_str(text));
+                    if valid {
+                        l.violation(
+                            format!("C11|MT{mt}:{tag}|message-rejects-real-date|{}", class_of_date(digits)),
+                            format!("MT{mt}: a valid message whose field {tag} carries the real date {digits} is rejected: {}", e.to_string().chars().take(90).collect::<String>()),
+                            || serde_json::to_value(case).unwrap(),
+                        );
+                    }
+                }
+            }
+        }
         Case::Date { digits } => {
             let class = class_of_date(digits);
             let v19 = valid_ymd(digits, 1900);
@@ -313,15 +349,66 @@ pub fn run(cfg: &Config) -> i32 {
             Case::Date { digits } => format!("date/{}", class_of_date(digits)),
             Case::Time { .. } => "time".to_string(),
             Case::Offset { .. } => "offset".to_string(),
+            Case::MessageDate { .. } => "message-date".to_string(),
         };
         if l.want_sample(&lab) {
             l.sample(&lab, json!({"case": case}));
         }
         judge(&case, l);
     });
+    // message level: the date slot of every date-bearing field occurrence of a generated maximal message
+    // of each type gets non-dates and real dates (a parser that drops a field it cannot read accepts the non-date)
+    let mut total = total;
+    {
+        use crate::spec::layout::{self, Gen, GenOptions};
+        use crate::spec::{self, Canon};
+        use crate::tok::{self, Token};
+        let mut mcases: Vec<Case> = Vec::new();
+        for lay in &layout::layouts() {
+            for vi in 0..2u64 {
+                let mut r0 = crate::rng::Rng::new(0, &format!("c11-msg:{}", lay.mt), vi);
+                let mut g0 = Gen { r: &mut r0, counter: 5 + vi as usize * 50, mt: lay.mt, opt: GenOptions { optional_per_mille: 1000, max_repeat: 3, max_seq: 2, maximal: vi == 0, minimal: false }, force_option: None, force_include: None };
+                let gf = g0.message(lay);
+                let mut toks: Vec<Token> = Vec::new();
+                let mut ok = true;
+                for f in &gf {
+                    match spec::canonical(&f.tag, &f.content) {
+                        Canon::Ok(c) => toks.push(Token { tag: f.tag.clone(), content: c }),
+                        _ => ok = false,
+                    }
+                }
+                if !ok {
+                    continue;
+                }
+                if lay.mt == "204" && toks.len() >= 2 && toks[1].tag == "19" {
+                    toks.swap(0, 1);
+                }
+                let mut seen: std::collections::BTreeMap<String, usize> = Default::default();
+                for (i, t) in toks.iter().enumerate() {
+                    let at = match t.tag.as_str() {
+                        "11R" | "11S" => 3usize,
+                        "13D" | "30" | "32A" | "32C" | "32D" | "61" => 0,
+                        "60F" | "60M" | "62F" | "62M" | "64" | "65" => 1,
+                        _ => continue,
+                    };
+                    let occ = *seen.entry(t.tag.clone()).and_modify(|x| *x += 1).or_insert(0);
+                    if t.content.len() < at + 6 || !t.content.is_char_boundary(at) || !t.content.is_char_boundary(at + 6) {
+                        continue;
+                    }
+                    for d in ["250230", "251301", "250100", "250132", "250631", "230229", "240229", "250615", "991231", "000101"] {
+                        let mut fs = toks.clone();
+                        fs[i].content = format!("{}{}{}", &t.content[..at], d, &t.content[at + 6..]);
+                        mcases.push(Case::MessageDate { mt: lay.mt.to_string(), tag: t.tag.clone(), occ, digits: d.to_string(), text: tok::render(&fs, false, false) });
+                    }
+                }
+            }
+        }
+        let t2 = par_for(cfg, mcases.len() as u64, |i, l| judge(&mcases[i as usize], l));
+        total.merge(t2);
+    }
     let mut rep = Report::default();
     rep.exhaustive = true;
-    rep.rule = "exhaustive: all 1,000,000 six-digit strings through 15 date-bearing field types (11, 11R, 11S, 13D, 30, 32A/C/D, 60F/M, 61, 62F/M, 64, 65) in MT and JSON, all 10,000 HHMM strings and all 20,000 signed offsets through 13C and 13D, plus non-digit characters (signs, blank, letter, dot, non-ASCII digits) at every position. Non-trivial = every (field, string) pair (a field parser ran); distinct = distinct (field, content) digests".into();
+    rep.rule = "exhaustive: all 1,000,000 six-digit strings through 15 date-bearing field types (11, 11R, 11S, 13D, 30, 32A/C/D, 60F/M, 61, 62F/M, 64, 65) in MT and JSON, all 10,000 HHMM strings and all 20,000 signed offsets through 13C and 13D, plus non-digit characters (signs, blank, letter, dot, non-ASCII digits) at every position; at message level the date slot of every date-bearing field occurrence (first, middle, last) of generated maximal messages of every type gets six non-dates and four real dates (accepted iff real). Non-trivial = every (field, string) pair (a field parser ran); distinct = distinct (field, content) digests".into();
     rep.assumptions = vec![
         "calendar validity from a from-scratch Gregorian model; the century is read from the library's own result, only 000229 depends on it".into(),
         "offset hours 15..23 are not judged (documentation says 'up to 14 hours' without making it a format rule)".into(),
